@@ -659,6 +659,12 @@ class Gen:
                 if self.rng.random() < 0.7:
                     members.append(self.object(1, n_props=self.rng.randint(1, 3)))
                     members[-1].pop("additionalProperties", None)
+                    if self.rng.random() < 0.4:
+                        # a member may require a property it inherits from a sibling member (valid JSON Schema)
+                        inherited = [k for p_ in ps for k in merged_object(self.comps.get(p_, {}), self.comps)["properties"] if k not in merged_object(self.comps.get(p_, {}), self.comps)["required"]]
+                        if inherited:
+                            members[-1].setdefault("required", []).append(self.rng.choice(inherited))
+                            self.features.add("allOf:requires_inherited")
                 self.rng.shuffle(members)
                 self.comps[nm] = {"allOf": members}
                 self.features.add("kind:allOf")
@@ -733,7 +739,7 @@ class Gen:
         def strip(x):
             if isinstance(x, dict):
                 if isinstance(x.get("properties"), dict) and x.get("required"):
-                    x["required"] = [k for k in x["required"] if not mentions_model(x["properties"].get(k, {}))]
+                    x["required"] = [k for k in x["required"] if k in x["properties"] and not mentions_model(x["properties"].get(k, {}))]
                     if not x["required"]:
                         x.pop("required")
                 for v in x.values():
@@ -1094,4 +1100,59 @@ def matrix_docs() -> list[tuple[str, dict]]:
                                    "responses": {"200": {"description": "ok", "content": {"application/json": {"schema": {"$ref": "#/components/schemas/M"}}}},
                                                  "201": {"description": "list", "content": {"application/json": {"schema": {"type": "array", "items": {"$ref": "#/components/schemas/M"}}}}}}}}
             out.append((f"{version}:{kind}", doc))
+    return out
+
+
+# =============================================================================================== structured sharing documents
+def sharing_docs() -> list[tuple[str, dict]]:
+    """Documents in which one component is used in several *roles* at once (JSON / multipart / form body in different
+    operations, response, property, array item, union member, allOf parent, additionalProperties) and several models
+    refer to the same shared schemas: order-sensitive bookkeeping (dependency roots, per-class flags) shows up when
+    such documents are permuted or partly broken."""
+    out = []
+    R = lambda n: {"$ref": f"#/components/schemas/{n}"}  # noqa: E731
+    ok = {"200": {"description": "ok"}}
+    for variant in range(6):
+        d = base_doc("3.0.3" if variant % 2 == 0 else "3.1.0", f"Sharing {variant}")
+        S = {
+            "Shared": {"type": "object", "properties": {"sid": {"type": "integer"}, "label": {"type": "string"}}, "required": ["sid"]},
+            "Kind": {"type": "string", "enum": ["k1", "k2"]},
+            "Doc": {"type": "object", "properties": {"title": {"type": "string"}, "pages": {"type": "integer"}, "kind": R("Kind")}, "required": ["title"]},
+            "UserA": {"type": "object", "properties": {"shared": R("Shared"), "a": {"type": "string"}}},
+            "UserB": {"type": "object", "properties": {"b": {"type": "integer"}, "shared": R("Shared"), "kind": R("Kind")}},
+            "UserList": {"type": "object", "properties": {"items": {"type": "array", "items": R("Shared")}}},
+            "UserUnion": {"type": "object", "properties": {"u": {"oneOf": [R("Shared"), {"type": "string"}]}}},
+            "UserDict": {"type": "object", "additionalProperties": R("Shared")},
+            "Child": {"allOf": [R("UserA"), {"type": "object", "properties": {"extra": {"type": "boolean"}}}]},
+            "GrandChild": {"allOf": [R("Child"), {"type": "object", "properties": {"more": {"type": "string"}}}]},
+            "Wrapper": {"type": "object", "properties": {"child": R("Child"), "doc": R("Doc")}},
+        }
+        keys = list(S)
+        k = variant % len(keys)
+        keys = keys[k:] + keys[:k]
+        if variant >= 3:
+            keys.reverse()
+        d["components"]["schemas"] = {x: S[x] for x in keys}
+        P = {
+            "/docs/upload": {"post": {"operationId": "upload_doc", "requestBody": {"content": {"multipart/form-data": {"schema": R("Doc")}}}, "responses": ok}},
+            "/docs/json": {"post": {"operationId": "create_doc", "requestBody": {"content": {"application/json": {"schema": R("Doc")}}}, "responses": {"200": {"description": "ok", "content": {"application/json": {"schema": R("Doc")}}}}}},
+            "/docs/form": {"put": {"operationId": "form_doc", "requestBody": {"content": {"application/x-www-form-urlencoded": {"schema": R("Doc")}}}, "responses": ok}},
+            "/shared": {"get": {"operationId": "get_shared", "parameters": [{"name": "kind", "in": "query", "schema": R("Kind")}], "responses": {"200": {"description": "ok", "content": {"application/json": {"schema": {"type": "array", "items": R("Shared")}}}}}}},
+            "/users/a": {"get": {"operationId": "get_a", "responses": {"200": {"description": "ok", "content": {"application/json": {"schema": R("UserA")}}}, "404": {"description": "nf", "content": {"application/json": {"schema": R("Shared")}}}}}},
+            "/users/child": {"patch": {"operationId": "patch_child", "requestBody": {"content": {"application/json": {"schema": R("Child")}, "multipart/form-data": {"schema": R("UserB")}}}, "responses": {"200": {"description": "ok", "content": {"application/json": {"schema": R("GrandChild")}}}}}},
+        }
+        d["components"]["responses"] = {"Problem": {"description": "problem", "content": {"application/json": {"schema": {"type": "object", "properties": {"code": {"type": "integer"}, "detail": {"type": "object", "properties": {"why": {"type": "string"}}}}}}}},
+                                        "Plain": {"description": "plain", "content": {"text/plain": {"schema": {"type": "string"}}}}}
+        d["components"]["requestBodies"] = {"DocBody": {"content": {"application/json": {"schema": {"type": "object", "properties": {"inline_title": {"type": "string"}}}}}}}
+        for pth, mth in (("/users/a", "get"), ("/shared", "get"), ("/docs/form", "put")):
+            P[pth][mth]["responses"]["409"] = {"$ref": "#/components/responses/Problem"}
+            P[pth][mth]["responses"]["410"] = {"$ref": "#/components/responses/Plain"}
+        P["/docs/by-ref"] = {"post": {"operationId": "body_by_ref", "requestBody": {"$ref": "#/components/requestBodies/DocBody"}, "responses": ok}}
+        P["/docs/by-ref2"] = {"put": {"operationId": "body_by_ref_two", "requestBody": {"$ref": "#/components/requestBodies/DocBody"}, "parameters": [{"name": "pageSize", "in": "query", "schema": {"type": "integer"}}, {"name": "X-Trace-Id", "in": "header", "schema": {"type": "string"}}],
+                                      "responses": {"200": {"description": "ok"}, "204": {"description": "none"}, "201": {"description": "typed", "content": {"application/json": {"schema": R("Doc")}}}}},
+                              "parameters": [{"name": "X-Trace-Id", "in": "header", "schema": {"type": "integer"}, "required": True}, {"name": "item-level", "in": "query", "schema": {"type": "string"}}]}
+        pk = list(P)
+        pk = pk[variant % len(pk):] + pk[:variant % len(pk)]
+        d["paths"] = {x: P[x] for x in pk}
+        out.append((f"sharing:{variant}", d))
     return out
